@@ -210,6 +210,15 @@ pub fn drive_c14(a: &Args, out: &mut Out) {
                     (oi, ni, h.old_range(), h.new_range())
                 }};
             }
+            if i % 3 == 1 {
+                // items with a legal but colliding Hash implementation
+                let pow: Vec<rec::WeakHash> = po.iter().map(|v| rec::WeakHash(*v)).collect();
+                let pnw: Vec<rec::WeakHash> = pn.iter().map(|v| rec::WeakHash(*v)).collect();
+                let h = IdentifyDistinct::<u32>::new(&pow[..], os..oe, &pnw[..], ns..ne);
+                let oi: Vec<u64> = h.old_range().map(|i| h.old_lookup()[i] as u64).collect();
+                let ni: Vec<u64> = h.new_range().map(|i| h.new_lookup()[i] as u64).collect();
+                return (oi, ni, h.old_range(), h.new_range());
+            }
             match ty {
                 "u8" => run!(u8),
                 "u16" => run!(u16),
@@ -422,6 +431,18 @@ pub fn drive_c20(a: &Args, out: &mut Out) {
                     Ok(o) => ops_json(&o),
                     Err(_) => json!([[-1]]),
                 });
+            }
+            // the same items under legal but colliding Hash implementations (same equalities,
+            // different hashes): identity relabelling as far as the property is concerned
+            {
+                let xw: Vec<rec::WeakHash> = x.iter().map(|v| rec::WeakHash(*v)).collect();
+                let yw: Vec<rec::WeakHash> = y.iter().map(|v| rec::WeakHash(*v)).collect();
+                variants.push(json!([seq_json(x), seq_json(y)]));
+                runs.push(rec::guarded(|| ops_json(&capture_diff_slices(alg, &xw, &yw))).unwrap_or(json!([[-1]])));
+                let xc: Vec<rec::ConstHash> = x.iter().map(|v| rec::ConstHash(*v)).collect();
+                let yc: Vec<rec::ConstHash> = y.iter().map(|v| rec::ConstHash(*v)).collect();
+                variants.push(json!([seq_json(x), seq_json(y)]));
+                runs.push(rec::guarded(|| ops_json(&capture_diff_slices(alg, &xc, &yc))).unwrap_or(json!([[-1]])));
             }
             let case = out.next_case();
             out.emit(&json!({"ev":"determ","case":case,"alg":alg_name(alg),"old":seq_json(x),"new":seq_json(y),
